@@ -317,3 +317,13 @@ Proof.
   intros cur new E H. unfold changes_certs. rewrite E.
   destruct (certs cur); auto. now rewrite list_cert_same_refl.
 Qed.
+
+Lemma certificate_identity : forall hl cur new i c n,
+  nth_error (certs cur) i = Some c -> nth_error (certs new) i = Some n ->
+  (c <> n -> set_configuration false hl cur new = (cur, Err E_modification)) /\
+  (c_x509 c <> c_x509 n -> set_configuration false hl cur new = (cur, Err E_modification)).
+Proof.
+  intros hl cur new i c n Hc Hn. split.
+  - exact (other_certificate_rejected hl cur new i c n Hc Hn).
+  - exact (same_key_other_x509_rejected hl cur new i c n Hc Hn).
+Qed.
